@@ -105,6 +105,13 @@ def cases(tier: str) -> List[Dict[str, Any]]:
                     c = D.make_case(h, idx, sch, w)
                     if c:
                         out.append(c)
+        if n <= 2 or tier == "thorough":
+            # the same history with dust-sized amounts (x 1.236e-8: every amount, also a quarter of one, still has at most 11 decimals) and sub-cent prices: what the report prints must
+            # still equal the computed values to double precision
+            for sc, ps in (("1236/100000000000", "1"), ("1236/100000000000", "7/1000"), ("1", "123456789/100000")):
+                c = D.make_case(h, idx if n == 2 else None, ("fifo", "hifo")[n % 2], (None, None), scale=sc, price_scale=ps)
+                if c:
+                    out.append(c)
         if n <= 2:
             # country / language slice, single asset and two assets, chronological sheet order too
             for cc, lang in LANG_SLICE:
